@@ -7,7 +7,7 @@
 #include <sys/resource.h>
 
 static char basedir[128];
-static long n_flood_sends, n_flood_refused;
+static long n_flood_sends, n_flood_refused, n_gave_up;
 static long n_conns, n_msgs_checked, n_resp_checked, n_events_checked, n_refused_sends, n_emsgsize, n_poll_probes, n_server_runs, n_fc_eagain, n_event_eagain;
 
 static void rm_rf(const char *d) { char cmd[300]; if (getenv("VP_KEEP")) return; snprintf(cmd, sizeof cmd, "rm -rf %s", d); if (system(cmd)) {} }
@@ -105,7 +105,7 @@ static void client_c02(const struct cl_cfg *cc, const char *dir)
 	uint32_t n = 0; uint32_t expect_resp[4096]; int nexp = 0, hexp = 0;
 	struct evstate es = { 0, 0, 0 }; long ev_acked_total = 0; unsigned char *ebuf = malloc(maxsz + 4096);
 	int fd = -1; qb_ipcc_fd_get(c, &fd);
-	int dead = 0;
+	int dead = 0; long retry_budget = 0;   /* refusals are retried, but not for ever: a client that is refused ~150000 times (a minute) gives up and says so */
 	if (vp_chance(&r, 1, 3)) qb_ipcc_fc_enable_max_set(c, 1 + vp_u(&r, 2));
 	for (int op = 0; op < cc->nops && !dead; op++) {
 		int k = (int)vp_u(&r, 100);
@@ -139,10 +139,12 @@ static void client_c02(const struct cl_cfg *cc, const char *dir)
 				for (;;) {
 					if (fhow == 0) frc = qb_ipcc_send(c, q, len); else { struct iovec iov[1] = { { q, len } }; frc = qb_ipcc_sendv(c, iov, 1); }
 					bed_log(L_C_SEND, 0, q->seq, (int64_t)len, frc, q->op, "flood");
-					if (frc == -EAGAIN || frc == -ENOBUFS || frc == -ETIMEDOUT) { if (++ftries > 8000) break; usleep(300); continue; }
+					if (frc == -EAGAIN || frc == -ENOBUFS || frc == -ETIMEDOUT) { if (++ftries > 8000 || ++retry_budget > 150000) break; usleep(300); continue; }
 					break;
 				}
 				if (frc != (ssize_t)len && (frc == -ENOTCONN || frc == -ECONNRESET || frc == -EPIPE || frc == -ESHUTDOWN || frc == -EBADF)) dead = 1;
+				if (retry_budget > 150000) { bed_log(L_C_NOTE, 0, retry_budget, 0, 0, 0, "gave-up-retrying"); dead = 2; }
+				if (frc != (ssize_t)len) break;   /* a refused flood message ends the flood: the rest would only pile up behind it */
 			}
 			continue;
 		}
@@ -161,13 +163,14 @@ static void client_c02(const struct cl_cfg *cc, const char *dir)
 			bed_log(L_C_SEND, 0, q->seq, (int64_t)len, rc, q->op, NULL);
 			if (rc == -EAGAIN || rc == -ENOBUFS || rc == -ETIMEDOUT) {
 				/* not queued (peer slow / flow control): retrying must neither lose nor duplicate */
-				if (++tries > 4000) break;
+				if (++tries > 4000 || ++retry_budget > 150000) break;
 				/* make room: flow control is lifted by the server only when it gets to run */
 				usleep(300);
 				continue;
 			}
 			break;
 		}
+		if (retry_budget > 150000) { bed_log(L_C_NOTE, 0, retry_budget, 0, 0, 0, "gave-up-retrying"); dead = 2; }
 		if (rc != (ssize_t)len) { if (rc == -ENOTCONN || rc == -ECONNRESET || rc == -EPIPE || rc == -ESHUTDOWN || rc == -EBADF) dead = 1; continue; }
 		if (want_resp) {
 			expect_resp[nexp++ & 4095] = q->seq;
@@ -257,6 +260,7 @@ static void case_c02(long kase)
 		long si = 0; int dead = 0, refused = 0, wrapped = 0;
 		for (long k = 0; k < nc; k++) {
 			if (C[k].kind == L_C_DISCONNECT) dead = (int)C[k].a;
+			if (C[k].kind == L_C_NOTE && !strcmp(C[k].text, "gave-up-retrying")) { n_gave_up++; vp_diag("ipc:client-gave-up-retrying", "client %d was refused %lld times in total and stopped early: nothing it still owed is judged [%s]", i + 1, (long long)C[k].a, vp.cur_desc); }
 			if (C[k].kind != L_C_SEND) continue;
 			int64_t seq = C[k].a, len = C[k].b, rc = C[k].c;
 			if (!strcmp(C[k].text, "flood")) { n_flood_sends++; if (rc < 0) n_flood_refused++; }
@@ -336,7 +340,7 @@ int main(int argc, char **argv)
 	}
 	rm_rf(basedir);
 	vp_count("private_dev_shm", private_shm); vp_count("server_runs", n_server_runs); vp_count("connections", n_conns); vp_count("requests_checked", n_msgs_checked); vp_count("responses_checked", n_resp_checked);
-	vp_count("flood_sends_at_stalled_server", n_flood_sends); vp_count("flood_sends_refused", n_flood_refused); vp_count("events_checked", n_events_checked); vp_count("sends_refused_and_retried", n_refused_sends); vp_count("sends_refused_by_flow_control", n_fc_eagain);
+	vp_count("flood_sends_at_stalled_server", n_flood_sends); vp_count("flood_sends_refused", n_flood_refused); vp_count("clients_that_gave_up_retrying", n_gave_up); vp_count("events_checked", n_events_checked); vp_count("sends_refused_and_retried", n_refused_sends); vp_count("sends_refused_by_flow_control", n_fc_eagain);
 	vp_count("oversize_sends_refused", n_emsgsize); vp_count("poll_probes", n_poll_probes); vp_count("event_sends_refused_at_server", n_event_eagain);
 	extra_counts();
 	vp_finish();
